@@ -358,6 +358,13 @@ def bundled_session(ctx, rng, kind=None):
                                    'impl': SC.decode_tok(got[i]) if i < len(got) else None,
                                    'model': SC.decode_tok(exp[i]) if i < len(exp) else (line if line == 'RAISES' else None),
                                    'n_impl': len(got), 'n_model': len(exp)}})
+    # the TRANSLATED client / seat-thread / main programs (Generated/PyCoreThreads.lean) on what the world handed the real ones
+    import thread_check as TC
+    tdiffs, n_lean = TC.check_session(common.REPO, r, driver, bundled=set(bundled_seats), boards=session.board_settings(sc))
+    ctx.count('translated_thread_runs', n_lean)
+    for d in tdiffs:
+        fails.append({'key': 'translated-thread-ops', 'kind': 'broken-correspondence', 'scenario': sc, 'systems': kind,
+                      'policy': pdesc, 'diff': d})
     ctx.distinct.add(hash((json.dumps(sc, sort_keys=True), kind, tuple(seeds), json.dumps(pdesc, sort_keys=True))))
     return fails
 
